@@ -1169,6 +1169,12 @@ def _rand_c04(rng, tier, sc0):
         steps.append({"op": "Stop", "shutdown": rng.random() < 0.5})
         if i % 4 == 1:
             c["via"] = "flw"      # the FileLogWriter used directly: its own shutdown(), no PrimaryWriter in front
+            if i % 8 == 1:
+                # buffered, records below the capacity, explicit shutdown() judged before the drop
+                c["mode"], c["cap"] = "buf", rng.choice([256, 8192])
+                c.pop("flush_ms", None)
+                steps = [st for st in steps if st["op"] not in ("Shutdown", "Stop")]
+                steps += [{"op": "Log", "len": rng.choice([9, 12, 63])}, {"op": "Shutdown"}, {"op": "Stop", "shutdown": False}]
         out.append({"sc": sc0 + i, "cfg": c, "t0": 1000, "steps": steps, "origin": "rand", "obs": "sync",
                     "tag": {"clone_dropped": any(s["op"] == "DropClone" for s in steps)}})
     return out
